@@ -180,4 +180,32 @@ CLAIMS["C20"] = {
     "technique": "Lean 4 proof (non-interference of unwritten registers over the register API and operand layer) + two-run implementation differential + model correspondence",
 }
 
+CLAIMS["C15"] = {
+    "text": "Lean theorem load_image over the model of from_binary (from the elf crate's parse result outward): for every file and every table of "
+            "harmless headers and loadable segments on pairwise distinct pages - any count, order, alignment, file/memory sizes (equal, bss tail, "
+            "exact page multiples), flags - loading succeeds and the memory is exactly the list of the segments' areas: file bytes at p_vaddr, "
+            "zeros up to p_memsz (and on to the page end), permissions = p_flags, RIP = e_entry; symbols_resolve: every address carrying a recorded "
+            "symbol resolves to the name of one recorded there, for any symbol table (aliases, empty names, undefined entries). Tied to "
+            "src/elf/elf.rs by generated ELF files written from a structured description; the generator's own knowledge of the file (bytes, zero "
+            "tail, flags, entry, names) is attached to the observation commands as expectations, so the implementation is judged against the "
+            "property directly as well as against the model.",
+    "design_ref": "DESIGN.md section 7, C15",
+    "note": COMMON_NOTE + "The elf crate's parser is taken as given (its answers are serialised per file); PT_TLS is covered by the correspondence only; "
+            "headers with p_vaddr = 0 are skipped by the loader and are outside the theorem's notion of well-formed.",
+    "technique": "Lean 4 proof (exact computation of the loader's memory by induction over the program-header table; list lemmas for the symbol map) + generated-ELF correspondence with property-level expectations",
+}
+CLAIMS["C16"] = {
+    "text": "Lean theorems for any file and any answer of the parser (arbitrary 64-bit header fields, any segment types, any symbol list): "
+            "fromBinary never crashes (fromBinary_never_panics), memory stays well-formed and overlap-free after every header "
+            "(loadSegments_preserves), a successful load has allocated at most 2^30 bytes of areas in total whatever p_memsz says (image_bound), "
+            "a failed load delivers no machine, and the loops are structural recursions (termination). Tied to the code by mutated ELF files "
+            "(single- and multi-field mutations of file/program/section header and symbol fields with boundary values, truncations, bit flips, "
+            "unsupported and duplicated segment types, class/endianness flips, arbitrary bytes) loaded in a worker with a 6 GiB address-space limit, "
+            "catch_unwind and a watchdog; outcome and resulting machine compared with the model.",
+    "design_ref": "DESIGN.md section 7, C16",
+    "note": COMMON_NOTE + "The elf crate's own parsing code is exercised on every file (it did not crash on any) but is not modelled; areas above 16 MiB are "
+            "not materialised by the model driver (the implementation's outcome is still checked by the crash oracle).",
+    "technique": "Lean 4 proof (crash-freedom, invariant and allocation bound by induction over the header table) + mutation-fuzzed correspondence under an address-space limit",
+}
+
 NOT_YET = {}
